@@ -68,6 +68,7 @@ func (w *Writer) Put(r any) {
 	}
 	w.w.Write(b)
 	w.w.WriteByte('\n')
+	w.w.Flush()
 }
 
 func (w *Writer) Flush() { w.w.Flush() }
